@@ -229,7 +229,12 @@ fn k2_text(len: u32, mut i: u64) -> String {
 /// number of leading items (all segments before the K4 length-6 tier); used by checks that execute the accepted
 /// inputs and keep the longest tier for their thorough run
 pub fn total_before_len6(tier: Tier) -> u64 {
-    segs(tier, false).iter().take_while(|s| s.name != "k4-len6").map(|s| s.count).sum()
+    total_before(tier, "k4-len6")
+}
+
+/// number of leading items up to (not including) the named segment
+pub fn total_before(tier: Tier, name: &str) -> u64 {
+    segs(tier, false).iter().take_while(|s| s.name != name).map(|s| s.count).sum()
 }
 
 pub fn total(tier: Tier, with_programs: bool) -> u64 {
